@@ -317,14 +317,14 @@ def local_defs(fi, name):
         if isinstance(n, ast.Assign):
             for t in n.targets:
                 for nm in ast.walk(t):
-                    if isinstance(nm, ast.Name) and nm.id == name:
+                    if isinstance(nm, ast.Name) and nm.id == name and isinstance(nm.ctx, ast.Store):
                         out.append(n)
         elif isinstance(n, (ast.AugAssign, ast.AnnAssign)):
             if isinstance(n.target, ast.Name) and n.target.id == name:
                 out.append(n)
         elif isinstance(n, (ast.For, ast.comprehension)):
             for nm in ast.walk(n.target):
-                if isinstance(nm, ast.Name) and nm.id == name:
+                if isinstance(nm, ast.Name) and nm.id == name and isinstance(nm.ctx, ast.Store):
                     out.append(n)
         elif isinstance(n, ast.With):
             for it in n.items:
